@@ -87,7 +87,21 @@ def gen_one(rng):
     for i in range(1, n):
         p = i - 1 if rng.random() < 0.6 else rng.randrange(i)
         parents.append(p)
-        contents.append(_mutate(rng, contents[p]))
+        new = None
+        if p != i - 1 and i >= 2 and rng.random() < 0.45:
+            # replay the delta of an earlier commit j on this branch: rebasing j onto here makes it empty
+            j = rng.randrange(1, i)
+            old, cur = contents[parents[j]], contents[j]
+            new = {k: list(v) for k, v in contents[p].items()}
+            for k in set(old) | set(cur):
+                if old.get(k) != cur.get(k):
+                    if k in cur:
+                        new[k] = list(cur[k])
+                    else:
+                        new.pop(k, None)
+            if new == contents[p]:
+                new = None
+        contents.append(new if new is not None else _mutate(rng, contents[p]))
     ops = []
     for _ in range(rng.randint(6, 9)):
         r = rng.random()
@@ -200,6 +214,9 @@ def nontrivial(case, out):
 
 
 def shrink_candidates(case):
+    import os
+    if os.environ.get("VERIF_NOSHRINK"):
+        return
     ops = case["ops"]
     for i in range(len(ops)):
         yield {"commits": case["commits"], "ops": ops[:i] + ops[i + 1:]}
